@@ -539,7 +539,7 @@ class Verifier(Exec):
                 a = z3.Const("H0_LR", z3.ArraySort(INT, z3.ArraySort(INT, INT)))
                 ax.append(z3.ForAll([o, i], z3.Implies(
                     z3.And(o > 0, o < st0_alloc),
-                    z3.And(z3.Select(z3.Select(a, o), i) >= 0,
+                    z3.And(z3.Select(z3.Select(a, o), i) >= 1,       # lists of objects (_data: _TreeItem) hold no None
                            z3.Select(z3.Select(a, o), i) < st0_alloc))))
             elif f in FIELDS and FIELDS[f][0] in ("ref", "list"):
                 a = z3.Const("H0_" + f, z3.ArraySort(INT, INT))
@@ -658,7 +658,10 @@ class Verifier(Exec):
             if isinstance(o[1].z, list):
                 local_env["exc_args"] = SV("tuple", None, o[1].z)
             # ghost assertions at the raise site (locals visible): "this refusal is justified"
+            from_callee = str(o[1].x[1] or "").startswith("callee:")
             for nm, txt in (con.ghost.get("at_raise", {}).get(ecls) or {}).items():
+                if from_callee and con.ghost.get("at_raise_local_only"):
+                    continue        # raised by a callee: justified by the callee's own contract
                 try:
                     goal = self.spec(txt, ctx, env=local_env, state=s)
                 except Unsupported as e:
